@@ -123,18 +123,31 @@ impl<A: Author, L: LogIdTrait> Cursor<A, L> {
 impl SqliteStore {
     // what the log store holds for the logs of this stream's topic (heights per author and log): SQL, not verified here
     pub uninterp spec fn local_heights(&self) -> Map<VerifyingKey, BTreeMap<LogId, SeqNum>>;
-    // TopicStore::resolve: the (author, logs) associated with the topic; does not touch cursors
+    // the heights the log store holds for the given logs of one author (None: none of them is stored): SQL, not verified here
+    pub uninterp spec fn stored_heights(&self, author: VerifyingKey, logs: Seq<LogId>) -> Option<BTreeMap<LogId, SeqNum>>;
+    // LogStore::get_log_heights (one query per author), contract-only
+    #[verifier::external_body]
+    pub fn get_log_heights_of(&self, author: &VerifyingKey, logs: &Vec<LogId>) -> (r: Result<Option<BTreeMap<LogId, SeqNum>>, SqliteError>)
+        ensures r is Ok ==> r->Ok_0 == self.stored_heights(*author, logs@)
+    { unimplemented!() }
+    // TopicStore::resolve: the (author, logs) associated with the topic; does not touch cursors. local_heights (the replica's
+    // heights for the topic) is by definition the stored heights of exactly these logs.
     #[verifier::external_body]
     pub fn resolve(&mut self, topic: &Topic) -> (r: Result<Logs, SqliteError>)
         requires !old(self).in_tx(),
-        ensures final(self).committed() == old(self).committed(), !final(self).in_tx(), final(self).local_heights() == old(self).local_heights()
+        ensures final(self).committed() == old(self).committed(), !final(self).in_tx(), final(self).local_heights() == old(self).local_heights(),
+            r is Ok ==> is_heights_for(final(self), (r->Ok_0)@, final(self).local_heights()),
     { unimplemented!() }
 }
-// file-local helper of acked.rs (one get_log_heights query per author): the stored heights of the given logs
-#[verifier::external_body]
-pub fn get_log_heights(store: &SqliteStore, logs: &Logs) -> (r: Result<LogHeights<VerifyingKey, LogId>, SqliteError>)
-    ensures r is Ok ==> (r->Ok_0)@ == store.local_heights()
-{ unimplemented!() }
+// for every given author with stored logs, exactly the stored heights; authors without stored logs are absent
+pub open spec fn is_heights_for(store: &SqliteStore, logs: Map<VerifyingKey, Vec<LogId>>, r: Map<VerifyingKey, BTreeMap<LogId, SeqNum>>) -> bool {
+    &&& forall|a: VerifyingKey| #[trigger] r.contains_key(a) <==> logs.contains_key(a) && store.stored_heights(a, logs[a]@) is Some
+    &&& forall|a: VerifyingKey| #[trigger] r.contains_key(a) ==> Some(r[a]) == store.stored_heights(a, logs[a]@)
+}
+pub open spec fn heights_so_far(store: &SqliteStore, logs: Map<VerifyingKey, Vec<LogId>>, h: Seq<(&VerifyingKey, &Vec<LogId>)>, r: Map<VerifyingKey, BTreeMap<LogId, SeqNum>>) -> bool {
+    &&& forall|a: VerifyingKey| #[trigger] r.contains_key(a) <==> visited(h, a) && store.stored_heights(a, logs[a]@) is Some
+    &&& forall|a: VerifyingKey| #[trigger] r.contains_key(a) ==> Some(r[a]) == store.stored_heights(a, logs[a]@)
+}
 #[verifier::external_body]
 pub fn verif_name_differs(c: &CursorT, name: &String) -> (r: bool) ensures r == (c.name != *name) { unimplemented!() }
 #[verifier::external_body]
